@@ -36,6 +36,7 @@ fn main() {
                 println!("{}", p.id);
             }
         }
+        "seeds" => seeds(&args[2]),
         "worker" => worker(&args[2..]),
         "replay" => std::process::exit(replay_cmd(&args[2..])),
         "run" => std::process::exit(run_cmd(&args[2..])),
@@ -453,4 +454,63 @@ fn run_cmd(a: &[String]) -> i32 {
     }
     let _ = Path::new("");
     0
+}
+
+/// Write small valid seed inputs for the libFuzzer targets (golden encodings).
+fn seeds(dir: &str) {
+    use csverif::props::c17::*;
+    use prost::Message;
+    let root = std::path::Path::new(dir);
+    let w = |target: &str, name: &str, data: &[u8]| {
+        let d = root.join(target);
+        std::fs::create_dir_all(&d).unwrap();
+        std::fs::write(d.join(name), data).unwrap();
+    };
+    // prom_body: mode byte + body
+    for (i, enc) in [0u8, 1, 2, 3].iter().enumerate() {
+        let req = PReq {
+            series: vec![
+                PSeries { name: 0, labels: vec![(0, 0), (1, 3)], samples: vec![(0, 1), (1, 3), (3, 9)] },
+                PSeries { name: 1, labels: vec![(2, 1)], samples: vec![(2, 12), (0, 6)] },
+                PSeries { name: 2, labels: vec![], samples: vec![] },
+            ],
+            enc: *enc,
+            colliding_labels: false,
+            ts_base: 1,
+        };
+        let body = encode_remote_write(&req);
+        let mut raw = vec![0u8];
+        raw.extend_from_slice(&body);
+        w("prom_body", &format!("raw-{}", i), &raw);
+        let mut sn = vec![1u8];
+        sn.extend_from_slice(&snappy(&body));
+        w("prom_body", &format!("snappy-{}", i), &sn);
+    }
+    // otlp_decode
+    for (i, kinds) in [[0u8, 1, 4], [2, 3, 5]].iter().enumerate() {
+        let req = OReq { resources: vec![(vec![(0, 0)], kinds.iter().map(|k| OPoint { kind: *k, name: *k, ts: 1, value: 3 + *k, attrs: vec![(0, 1), (4, 2)] }).collect())], ts_base: 1 };
+        let (msg, _) = build_otlp(&req);
+        w("otlp_decode", &format!("export-{}", i), &msg.encode_to_vec());
+    }
+    // flight_doput: [u16 hl][u16 bl][header][body]...
+    {
+        let spec = csverif::gen::BatchSpec { schema: 1, rows: (0..3).map(|i| csverif::gen::RowSpec { ts_step: i, ts_jitter: 0, metric: i as u8, labels: [Some(0), None, Some(1)], fval: Some(3), ival: None }).collect() };
+        let batch = csverif::gen::build_batch(&spec, 1_700_000_000_000_000_000, 0, None);
+        let frames = cardinalsin::api::ingest::flight_ingest::batch_to_flight_data(&batch).unwrap();
+        let mut out = Vec::new();
+        for f in &frames {
+            out.extend_from_slice(&(f.data_header.len() as u16).to_le_bytes());
+            out.extend_from_slice(&(f.data_body.len() as u16).to_le_bytes());
+            out.extend_from_slice(&f.data_header);
+            out.extend_from_slice(&f.data_body);
+        }
+        w("flight_doput", "batch-0", &out);
+    }
+    // structured-bytes targets: a few fixed byte strings of full length
+    for t in ["wal_ops", "pred_stats"] {
+        for i in 0..4u8 {
+            let data: Vec<u8> = (0..96u32).map(|k| (k as u8).wrapping_mul(37 + i * 11).wrapping_add(i * 59)).collect();
+            w(t, &format!("bytes-{}", i), &data);
+        }
+    }
 }
